@@ -168,16 +168,22 @@ Inductive aop :=
 
 Inductive op := OM (o : mop) | OA (o : aop).
 
-(** Domain: slots are array objects; cstl_array_init only on a disposable
-    object; cstl_array_set only with a buffer that really has [nm] elements
-    of [sz] bytes (documented precondition). *)
+(** Domain: slots are array objects; numeric arguments are [size_t] values;
+    cstl_array_init only on a disposable object; cstl_array_set only with a
+    buffer that really has [nm] elements of [sz] bytes (documented
+    precondition). *)
+Definition is64 (x : N) : bool := x <? 18446744073709551616.
+
 Definition adom (s : st) (o : aop) : bool :=
   match o with
   | VInit a => has_kind s a KA && disposable s a
-  | VAlloc a _ _ | VRelease a | VData a | VAt a _ | VSize a | VReset a => has_kind s a KA
+  | VRelease a | VData a | VSize a | VReset a => has_kind s a KA
+  | VAlloc a nm sz => has_kind s a KA && is64 nm && is64 sz
+  | VAt a i => has_kind s a KA && is64 i
   | VSet a e nm sz =>
-    has_kind s a KA && match nth_error (exts s) e with Some c => nm * sz <=? c | None => false end
-  | VSlice a _ _ t => has_kind s a KA && has_kind s t KA
+    has_kind s a KA && is64 nm && is64 sz &&
+    match nth_error (exts s) e with Some c => (nm * sz <=? c) && is64 c | None => false end
+  | VSlice a b e t => has_kind s a KA && has_kind s t KA && is64 b && is64 e
   | VUnslice sl a => has_kind s sl KA && has_kind s a KA
   end.
 
